@@ -539,6 +539,7 @@ func resolveBodies(t *testing.T, zone *simdoh.Zone, host string, qtype uint16, c
 				continue
 			}
 			cur = i
+			core.Beat()
 			cs := -1
 			if cacheOff {
 				cs = 0
@@ -853,6 +854,7 @@ func executeMutate(t *testing.T, prop string, pl *Plan) *core.Result {
 			counts["skipped_cycle_after_report"]++
 			continue
 		}
+		core.Beat()
 		v := judgeDecode(g, c.body, false)
 		res.Evals++
 		counts["decode_"+v.status]++
@@ -1007,6 +1009,7 @@ func executeAdv(t *testing.T, prop string, pl *Plan) *core.Result {
 		if ws.Cycle {
 			counts["pointer_cycle"]++
 		}
+		core.Beat()
 		v := judgeDecode(g, m, false)
 		res.Evals++
 		counts["decode_"+v.status]++
